@@ -292,6 +292,11 @@ def gen_case(rng, max_tasks):
         else:
             kw, ps = None, i
         edges.append({"src": a, "out": rng.choice(outs[a]), "dst": b, "kw": kw, "ps": ps})
+    # a task nobody consumes from may have an empty output schema
+    producers = {e["src"] for e in edges}
+    for t in tasks:
+        if t[0] not in producers and rng.random() < 0.08:
+            t[1] = []
     return {"tasks": tasks, "edges": edges}, {"shapes": shapes, "multi": multi}
 
 
@@ -519,6 +524,8 @@ def _evaluate(ctx, cases, compare=True):
             ctx.count("jobs_with_multi_edges")
         if multi_out:
             ctx.count("jobs_with_multi_output_tasks")
+        if any(len(o) == 0 for _, o in case["tasks"]):
+            ctx.count("jobs_with_output_less_tasks")
         if "pre" in res and any(len(c.nodes) == 1 for c in res["pre"].components):
             ctx.count("jobs_with_isolated_tasks")
         if not wf:
@@ -574,7 +581,7 @@ def _corpus():
 
 
 def correspond(ctx):
-    n = ctx.budget(300, 6000)
+    n = ctx.budget(300, 8000)
     max_tasks = ctx.budget(40, 60)
     cases = _corpus() + [(c, {}) for c in fixed_cases()]
     for i in range(n):
